@@ -231,6 +231,30 @@ pub fn run(reg: &dyn Registry, ctx: &Ctx) -> Outcome {
             seeds.extend(alphabet::u64_alphabet().into_iter().map(|x| x.to_le_bytes().to_vec()));
         }
         seeds.extend(documented_constant_seeds(*ty).into_iter().filter(|s| s.iter().any(|&b| b != 0)));
+        // value-directed states: the next output is 0, all ones, 1, a half-zero word (the scrambler is
+        // inverted on the reference model); other state words zero and dense
+        {
+            let dense_fill: [u64; 8] = {
+                let b = alphabet::bg_bytes(ctx.seed, 0x0FF0 + kind as u64, 64);
+                let mut a = [0u64; 8];
+                for i in 0..8 {
+                    a[i] = u64::from_le_bytes(b[8 * i..8 * i + 8].try_into().unwrap());
+                }
+                a
+            };
+            let free: Vec<u64> = {
+                let mut v = vec![0u64, 1, 2, 1 << 31, 1u64 << 63, u64::MAX, 0xffff_ffff, dense_fill[7], dense_fill[6] | 1];
+                v.extend(alphabet::carry_words(kind.word_bits()).into_iter().step_by(7));
+                v
+            };
+            let before = seeds.len();
+            for target in [0u64, u64::MAX, 1, 0xffff_ffff, 0xffff_ffff_0000_0000, 0x8000_0000_0000_0000, 0x0000_0000_8000_0000] {
+                for fill in [[0u64; 8], dense_fill] {
+                    seeds.extend(xoshiro::states_with_output(kind, target, &free, &fill));
+                }
+            }
+            ctx.add("special_output_states", (seeds.len() - before) as u64);
+        }
         {
             let mut seen = std::collections::HashSet::new();
             seeds.retain(|s| seen.insert(s.clone()));
@@ -247,7 +271,7 @@ pub fn run(reg: &dyn Registry, ctx: &Ctx) -> Outcome {
         }
 
         // (e) long chains: every output of L steps from 8 dense base seeds
-        let l = if thorough { 1 << 27 } else { 1 << 16 };
+        let l = if thorough { 1 << 27 } else { (1 << 17) + 64 };
         let bases: Vec<Vec<u8>> = (0..8).map(|b| alphabet::bg_bytes(ctx.seed, 0xBA5E00 + b + ((kind as u64) << 16), len)).collect();
         let res: Vec<Result<u64, (String, serde_json::Value)>> = bases.par_iter().map(|s| lockstep(*ty, kind, s, l)).collect();
         for r in res {
